@@ -6,24 +6,39 @@
     C01_text_lexsafe, C01_attr_lexsafe   no raw `<` / `&`-less … in the escaped output
   The escape tables and entity names are the ones `extract.py` read off `/repo/src/entity.rs`.
 
-  Tree level, serialiser third (the other two thirds: tokenizer contract `lex (renderTokens ts) = ts`
-  under `LexOK`, Model/LexOK.lean; builder on a namespace-aware spelling, Lemmas/ParseNs*):
+  Tree level, the serialiser's side:
     C01_serialised_is_rendering (+ _ok, _conv, _fails_iff, _at, _representable)
         `to_string` of a tree IS `renderTokens (serTokens tree)` (Model/SerTokens.lean), one
         equation covering success, the converse and the errors
     C01_rendering_lexok, C01_rendering_lexok_fragment
         for a `Representable` / `RepresentableFragment` tree the token list satisfies `LexOK`
-    C01_rendering_decodes
-        attribute / declaration values and text tokens decode back to the strings of the tree
-    C01_value_spelling
-        the same strings as well-spelled `Piece` lists (bridge to the builder theorems)
-  The names the tags and attributes are written with resolve, nearest declaration first, to the
-  names' namespaces: C10_sound_tree, C10_sound_tree_endtag, C10_sound_tree_attribute (Props/C10).
+    C01_rendering_decodes, C01_value_spelling
+        values and text decode back / as well-spelled `Piece` lists
+    C01_serialises   `to_string` succeeds iff `namesWritable` (the serialiser's MissingPrefix checks)
+  Tree level, the round trip (Lemmas/RoundTrip*.lean; `spellTop` = the tree as a spelling `NSNode`):
+    C01_spelling_tokens / _denotes / _well     lemmas A / B / C: tokens of the spelling = serTokens;
+        it denotes (XML-Namespaces scoping on strings) what the tree reads back as; the builder admits it
+    C01_build, C01_build_fragment      builder on serTokens returns the ORIGINAL tree, tables unchanged
+    C01_main, C01_main_fragment        serialise, tokenize (any tokenizer meeting `LexCanon`), build:
+        the reparsed document reads back as the abstract document of the original
+    C01_main_identical (+ _fragment_identical, _writable), C01_main_deep_equal (+ _fragment_…)
+        the reparsed tree IS the original tree (ids, declarations, prefixes), hence deep_equal
+    C01_roundtrip, C01_roundtrip_identical, _fragment, _fragment_identical, _writable
+        THE CLOSED LOOP on strings: `parseString` (reference tokenizer, Model/Lex.lean, feeding the builder)
+        of `to_string tree` returns the tree; no tokenizer hypothesis (C01_lexCanon_document / _fragment)
+  The `LexCanon`-parametric versions (C01_main*) hold for ANY tokenizer meeting the contract.
 -/
 import XotModel.Lemmas.Entity
 import XotModel.Lemmas.SerTokensLexTop
 import XotModel.Lemmas.SerTokensDecode
 import XotModel.Lemmas.SerTokensPieces
+import XotModel.Lemmas.RoundTripTokens
+import XotModel.Lemmas.RoundTripEncode
+import XotModel.Lemmas.RoundTripSerialises
+import XotModel.Lemmas.RoundTripDeepEqual
+import XotModel.Lemmas.LexCanon
+import XotModel.Model.ParseString
+import XotModel.Props.C02
 
 namespace XotModel.Props
 open XotModel XotModel.Gen
@@ -195,5 +210,337 @@ example :
     toXmlString env t [] = .ok "<:a xmlns:=\"u\"/>".toList ∧
     (serTokensTop env t).toOption.map renderTokens = some "<a xmlns:=\"u\"/>".toList := by
   decide
+
+/-! ### Tree level: the round trip
+
+The three thirds glued.  `spellTop env t` (Lemmas/RoundTripDefs.lean) is the SPELLING of the tree: the
+`NSNode`s (vocabulary of C02_spelled_ns) with the serialiser's prefix choices, one `Piece` per character.
+  A  `C01_spelling_tokens`   its tokens are the tokens `to_string` renders (`serTokensTop`)
+  B  `C01_spelling_denotes`  what it denotes by XML-Namespaces scoping over the declarations as written
+                             (strings) is what the ORIGINAL tree reads back as through its tables
+                             (the bridge from the id-level scoping of C10 to strings)
+  C  `C01_spelling_well`     the builder admits it (`WellNsDoc`)
+`LexCanon` is the tokenizer contract: on the canonical rendering of a `LexOK` token list the
+tokenizer returns that list up to byte positions (to be discharged by the reference tokenizer). -/
+
+/-- A: the tokens of the spelling are the serialiser's tokens (every tree, sound or not). -/
+theorem C01_spelling_tokens (env : Env) (t : Tree) (ts : List Token) (h : serTokensTop env t = .ok ts) :
+    NSNode.tokens.tokensList (spellTop env t) = ts :=
+  spell_tokens env t ts h
+
+/-- B: the spelling denotes, in the base scope, the abstract document the tree reads back as. -/
+theorem C01_spelling_denotes (env : Env) (t : Tree) (hr : RepresentableFragment env t = true)
+    (ts : List Token) (h : serTokensTop env t = .ok ts) :
+    decodeNs env t.kids = some (NSNode.denote.denoteList baseScope (spellTop env t)) := by
+  obtain ⟨ks, rfl, hf⟩ := topFacts hr h
+  exact (spellTop_denote hf).1
+
+/-- C: the builder admits the spelling. -/
+theorem C01_spelling_well (env : Env) (t : Tree) (hr : RepresentableFragment env t = true)
+    (ts : List Token) (h : serTokensTop env t = .ok ts) : WellNsDoc (spellTop env t) := by
+  obtain ⟨ks, rfl, hf⟩ := topFacts hr h
+  exact spellTop_well hf
+
+/-- `envOK` (part of `Representable`) implies the hypothesis of the builder theorems. -/
+theorem C01_envBaseNs (env : Env) (h : envOK env = true) : EnvBaseNs env :=
+  (envFacts_of_envOK h).envBaseNs
+
+theorem C01_serialised_ok_representable {env : Env} {t : Tree} (hr : RepresentableFragment env t = true) {s : Str}
+    (hs : toXmlString env t [] = .ok s) : ∃ ts, serTokensTop env t = .ok ts ∧ s = renderTokens ts := by
+  rw [C01_serialised_is_rendering_representable env t hr] at hs
+  cases hts : serTokensTop env t with
+  | ok ts => rw [hts] at hs; cases hs; exact ⟨ts, rfl, rfl⟩
+  | error e => rw [hts] at hs; cases hs
+
+/-- **C01_main** (`parse`): for every representable document whose default serialisation succeeds
+    (every namespaced name has a usable prefix in scope), and every tokenizer meeting the contract:
+    the serialised text is tokenized without error, the builder accepts the tokens, and the reparsed
+    document reads back — through the interning tables the parse leaves — as exactly the abstract
+    document the original tree reads back as: node kinds and order, expanded names (namespace URI
+    and local name as strings), per element the declarations (prefix, URI) in order, the
+    attributes in order with their values, text, comments, processing instructions. -/
+theorem C01_main (env : Env) (t : Tree) (hr : Representable env t = true)
+    (lex : Str → List Token × Option Nat) (hlex : LexCanon false lex) (s : Str)
+    (hs : toXmlString env t [] = .ok s) :
+    ∃ ts p, lex s = (ts, none) ∧ build .document (strLen s) env ts none = .ok p ∧
+      p.tree.value = .document ∧ decodeNs p.env p.tree.kids = decodeNs env t.kids := by
+  have hr' := hr
+  simp only [Representable, Bool.and_eq_true] at hr'
+  obtain ⟨hfrag, hsingle⟩ := hr'
+  obtain ⟨ts0, hser, rfl⟩ := C01_serialised_ok_representable hfrag hs
+  obtain ⟨ts, hl, her⟩ := hlex ts0 (C01_rendering_lexok env t hr ts0 hser)
+  obtain ⟨ks, rfl, hf⟩ := topFacts hfrag hser
+  have hA := spell_tokens env _ ts0 hser
+  obtain ⟨p0, hb, hv, hd⟩ := C02_spelled_ns_document hf.he.envBaseNs (strLen (renderTokens ts0))
+    (spellTop env (.node .document ks)) (spellTop_well hf) (spellTop_abstractTop hf hsingle)
+  rw [hA] at hb
+  obtain ⟨p, hp, h1, h2, _⟩ := C02_positions_irrelevant_ok .document _ (strLen (renderTokens ts0)) env ts0 ts
+    her.symm p0 hb
+  refine ⟨ts, p, hl, hp, by rw [h1]; exact hv, ?_⟩
+  rw [h1, h2, hd]
+  exact (spellTop_denote hf).1.symm
+
+/-- **C01_main_fragment** (`parse_fragment`): the same for any well-formed content under the
+    document node (several top-level elements, top-level text). -/
+theorem C01_main_fragment (env : Env) (t : Tree) (hr : RepresentableFragment env t = true)
+    (lex : Str → List Token × Option Nat) (hlex : LexCanon true lex) (s : Str)
+    (hs : toXmlString env t [] = .ok s) :
+    ∃ ts p, lex s = (ts, none) ∧ build .fragment (strLen s) env ts none = .ok p ∧
+      p.tree.value = .document ∧ decodeNs p.env p.tree.kids = decodeNs env t.kids := by
+  obtain ⟨ts0, hser, rfl⟩ := C01_serialised_ok_representable hr hs
+  obtain ⟨ts, hl, her⟩ := hlex ts0 (C01_rendering_lexok_fragment env t hr ts0 hser)
+  obtain ⟨ks, rfl, hf⟩ := topFacts hr hser
+  have hA := spell_tokens env _ ts0 hser
+  obtain ⟨p0, hb, hv, hd⟩ := C02_spelled_ns_fragment hf.he.envBaseNs (strLen (renderTokens ts0))
+    (spellTop env (.node .document ks)) (spellTop_well hf)
+  rw [hA] at hb
+  obtain ⟨p, hp, h1, h2, _⟩ := C02_positions_irrelevant_ok .fragment _ (strLen (renderTokens ts0)) env ts0 ts
+    her.symm p0 hb
+  refine ⟨ts, p, hl, hp, by rw [h1]; exact hv, ?_⟩
+  rw [h1, h2, hd]
+  exact (spellTop_denote hf).1.symm
+
+/-! ### Strengthening: the reparsed tree IS the original tree
+
+Every string of `t` is interned in `env` already (an id outside the tables cannot occur in a
+`Representable` tree the serialiser accepts), so reparsing into the same `Xot` interns nothing and
+every id comes back: literal equality of the id trees, declarations and prefixes included. -/
+
+/-- Encoding the abstract document `t` reads back as (ids interned in document order, as the
+    parser does) gives `t` back and leaves the tables alone. -/
+theorem C01_encode_decode (env : Env) (t : Tree) (hr : RepresentableFragment env t = true)
+    (ts : List Token) (h : serTokensTop env t = .ok ts) :
+    NPNode.encode.encodeList env (NSNode.denote.denoteList baseScope (spellTop env t)) = (env, t.kids) := by
+  obtain ⟨ks, rfl, hf⟩ := topFacts hr h
+  exact spellTop_encode hf
+
+/-- **C01_build** (`parse` without the tokenizer): the builder, run on the tokens `to_string` renders
+    (any source length, any byte positions: `C02_positions_irrelevant`), returns the original tree
+    and leaves the interning tables unchanged. -/
+theorem C01_build (env : Env) (t : Tree) (hr : Representable env t = true) (ts : List Token)
+    (h : serTokensTop env t = .ok ts) (len : Nat) :
+    ∃ p, build .document len env ts none = .ok p ∧ p.tree = t ∧ p.env = env := by
+  simp only [Representable, Bool.and_eq_true] at hr
+  obtain ⟨hfrag, hsingle⟩ := hr
+  obtain ⟨ks, rfl, hf⟩ := topFacts hfrag h
+  obtain ⟨p0, hb, ht, he⟩ := build_document_spelled_ns hf.he.envBaseNs len
+    (spellTop env (.node .document ks)) (spellTop_well hf)
+    (wellFormedTop_of_abstractNs (spellTop_abstractTop hf hsingle))
+  rw [spell_tokens env _ ts h] at hb
+  rw [spellTop_encode hf] at ht he
+  exact ⟨p0, hb, ht, he⟩
+
+/-- `parse_fragment` without the tokenizer. -/
+theorem C01_build_fragment (env : Env) (t : Tree) (hr : RepresentableFragment env t = true)
+    (ts : List Token) (h : serTokensTop env t = .ok ts) (len : Nat) :
+    ∃ p, build .fragment len env ts none = .ok p ∧ p.tree = t ∧ p.env = env := by
+  obtain ⟨ks, rfl, hf⟩ := topFacts hr h
+  obtain ⟨p0, hb, ht, he⟩ := build_fragment_spelled_ns hf.he.envBaseNs len
+    (spellTop env (.node .document ks)) (spellTop_well hf)
+  rw [spell_tokens env _ ts h] at hb
+  rw [spellTop_encode hf] at ht he
+  exact ⟨p0, hb, ht, he⟩
+
+/-- **C01_main, strong form** (`parse`): the reparsed tree is the original tree, node for node and id
+    for id — names, attribute sets and values, character data, comments, PIs, namespace declarations
+    on the same elements with the same prefix-to-URI bindings — and the interning tables are
+    unchanged. -/
+theorem C01_main_identical (env : Env) (t : Tree) (hr : Representable env t = true)
+    (lex : Str → List Token × Option Nat) (hlex : LexCanon false lex) (s : Str)
+    (hs : toXmlString env t [] = .ok s) :
+    ∃ ts p, lex s = (ts, none) ∧ build .document (strLen s) env ts none = .ok p ∧
+      p.tree = t ∧ p.env = env := by
+  have hfrag : RepresentableFragment env t = true := by
+    simp only [Representable, Bool.and_eq_true] at hr; exact hr.1
+  obtain ⟨ts0, hser, rfl⟩ := C01_serialised_ok_representable hfrag hs
+  obtain ⟨ts, hl, her⟩ := hlex ts0 (C01_rendering_lexok env t hr ts0 hser)
+  obtain ⟨p0, hb, ht, he⟩ := C01_build env t hr ts0 hser (strLen (renderTokens ts0))
+  obtain ⟨p, hp, h1, h2, _⟩ := C02_positions_irrelevant_ok .document _ (strLen (renderTokens ts0)) env ts0 ts
+    her.symm p0 hb
+  exact ⟨ts, p, hl, hp, by rw [h1, ht], by rw [h2, he]⟩
+
+/-- **C01_main_fragment, strong form** (`parse_fragment`). -/
+theorem C01_main_fragment_identical (env : Env) (t : Tree) (hr : RepresentableFragment env t = true)
+    (lex : Str → List Token × Option Nat) (hlex : LexCanon true lex) (s : Str)
+    (hs : toXmlString env t [] = .ok s) :
+    ∃ ts p, lex s = (ts, none) ∧ build .fragment (strLen s) env ts none = .ok p ∧
+      p.tree = t ∧ p.env = env := by
+  obtain ⟨ts0, hser, rfl⟩ := C01_serialised_ok_representable hr hs
+  obtain ⟨ts, hl, her⟩ := hlex ts0 (C01_rendering_lexok_fragment env t hr ts0 hser)
+  obtain ⟨p0, hb, ht, he⟩ := C01_build_fragment env t hr ts0 hser (strLen (renderTokens ts0))
+  obtain ⟨p, hp, h1, h2, _⟩ := C02_positions_irrelevant_ok .fragment _ (strLen (renderTokens ts0)) env ts0 ts
+    her.symm p0 hb
+  exact ⟨ts, p, hl, hp, by rw [h1, ht], by rw [h2, he]⟩
+
+/-! Non-vacuity (the document `c01Doc` above: default namespace, prefixed child, attribute value with
+    `<&"` TAB, text `]]>` CR, comment, PIs): the hypotheses hold by `decide`; it reads back as the
+    abstract document below; the builder on its tokens returns it; so does `parse` with any tokenizer
+    meeting the contract. -/
+
+example : decodeNs c01Env c01Doc.kids = some
+    [.comment ['h', 'i'],
+     .elem ['u', 'r', 'n', ':', 'a'] ['r'] [([], ['u', 'r', 'n', ':', 'a']), (['p'], ['u', 'r', 'n', ':', 'b'])]
+       [(([], ['k']), ['<', '&', '"', '\t'])]
+       [.elem ['u', 'r', 'n', ':', 'b'] ['c'] [] [] [], .text [']', ']', '>', '\r'], .pi ['t'] (some ['d'])],
+     .pi ['t'] none] := rfl
+
+example : ∃ ts p, serTokensTop c01Env c01Doc = .ok ts ∧ renderTokens ts = c01Text ∧
+    build .document (strLen c01Text) c01Env ts none = .ok p ∧ p.tree = c01Doc ∧ p.env = c01Env := by
+  obtain ⟨ts, h1, h2⟩ := C01_serialised_is_rendering_ok c01Env c01Doc (by decide) (by decide) c01Text
+    (by decide)
+  obtain ⟨p, h3, h4, h5⟩ := C01_build c01Env c01Doc (by decide) ts h1 (strLen c01Text)
+  exact ⟨ts, p, h1, h2.symm, h3, h4, h5⟩
+
+example (lex : Str → List Token × Option Nat) (hlex : LexCanon false lex) :
+    ∃ ts p, lex c01Text = (ts, none) ∧ build .document (strLen c01Text) c01Env ts none = .ok p ∧
+      p.tree = c01Doc ∧ p.env = c01Env :=
+  C01_main_identical c01Env c01Doc (by decide) lex hlex c01Text (by decide)
+
+example : WellNsDoc (spellTop c01Env c01Doc) := by
+  obtain ⟨ts, h1, _⟩ := C01_serialised_is_rendering_ok c01Env c01Doc (by decide) (by decide) c01Text
+    (by decide)
+  exact C01_spelling_well c01Env c01Doc (by decide) ts h1
+
+/-! ### When does serialisation succeed? -/
+
+/-- **C01_serialises**: for a representable document or fragment, `to_string` succeeds exactly when
+    every namespaced name has a usable prefix in scope — `namesWritable` (Model/Scope.lean), the
+    serialiser's own `MissingPrefix` checks run over the tree with the name stack
+    `XmlSerializer::new` builds: no element in no namespace under a default namespace,
+    `element_fullname` and every `attribute_fullname` answer (C10_error_element / _attribute say when;
+    `create_missing_prefixes` establishes it: C10_repair_document_writable).  The hypothesis
+    `toXmlString … = .ok s` of C01_main is therefore this decidable condition on the tree. -/
+theorem C01_serialises (env : Env) (t : Tree) (hr : RepresentableFragment env t = true) :
+    (∃ s, toXmlString env t [] = .ok s) ↔ namesWritable env t [] = some true := by
+  rw [← serTokensTop_ok_iff hr, C01_serialised_is_rendering_representable env t hr]
+  cases serTokensTop env t <;> simp [exceptIsOk]
+
+/-- C01_main with the decidable condition in place of "serialisation succeeds". -/
+theorem C01_main_writable (env : Env) (t : Tree) (hr : Representable env t = true)
+    (hw : namesWritable env t [] = some true)
+    (lex : Str → List Token × Option Nat) (hlex : LexCanon false lex) :
+    ∃ s ts p, toXmlString env t [] = .ok s ∧ lex s = (ts, none) ∧
+      build .document (strLen s) env ts none = .ok p ∧ p.tree = t ∧ p.env = env := by
+  have hfrag : RepresentableFragment env t = true := by
+    simp only [Representable, Bool.and_eq_true] at hr; exact hr.1
+  obtain ⟨s, hs⟩ := (C01_serialises env t hfrag).mpr hw
+  obtain ⟨ts, p, h1, h2, h3, h4⟩ := C01_main_identical env t hr lex hlex s hs
+  exact ⟨s, ts, p, hs, h1, h2, h3, h4⟩
+
+example : namesWritable c01Env c01Doc [] = some true := by decide
+
+/-! ### `deep_equal` -/
+
+/-- **C01_main as the property words it**: the reparsed tree is `deep_equal` (Model/Compare.lean,
+    the crate's own comparison; canonical-form equality by C13_iff) to the original.  A corollary of
+    the literal equality `C01_main_identical`, which says more (declarations and prefixes too). -/
+theorem C01_main_deep_equal (env : Env) (t : Tree) (hr : Representable env t = true)
+    (lex : Str → List Token × Option Nat) (hlex : LexCanon false lex) (s : Str)
+    (hs : toXmlString env t [] = .ok s) :
+    ∃ ts p, lex s = (ts, none) ∧ build .document (strLen s) env ts none = .ok p ∧
+      deepEqual p.tree t = true := by
+  obtain ⟨ts, p, h1, h2, h3, _⟩ := C01_main_identical env t hr lex hlex s hs
+  refine ⟨ts, p, h1, h2, ?_⟩
+  have hfrag : RepresentableFragment env t = true := by
+    simp only [Representable, Bool.and_eq_true] at hr; exact hr.1
+  obtain ⟨_, _, hn, _⟩ := (representableFragment_iff env t).mp hfrag
+  have hv := valid_of_nodeOK t hn
+  rw [h3]
+  exact (deepEqual_iff_canon t t hv hv).mpr rfl
+
+theorem C01_main_fragment_deep_equal (env : Env) (t : Tree) (hr : RepresentableFragment env t = true)
+    (lex : Str → List Token × Option Nat) (hlex : LexCanon true lex) (s : Str)
+    (hs : toXmlString env t [] = .ok s) :
+    ∃ ts p, lex s = (ts, none) ∧ build .fragment (strLen s) env ts none = .ok p ∧
+      deepEqual p.tree t = true := by
+  obtain ⟨ts, p, h1, h2, h3, _⟩ := C01_main_fragment_identical env t hr lex hlex s hs
+  refine ⟨ts, p, h1, h2, ?_⟩
+  obtain ⟨_, _, hn, _⟩ := (representableFragment_iff env t).mp hr
+  have hv := valid_of_nodeOK t hn
+  rw [h3]
+  exact (deepEqual_iff_canon t t hv hv).mpr rfl
+
+/-! ### The closed loop: `parse (to_string tree)` on STRINGS
+
+`parseString` (Model/ParseString.lean) = the reference tokenizer (Model/Lex.lean: the Lean model of
+xmlparser, correspondence-checked against the crate's tokenizer by the lex suite) feeding the builder,
+as `Xot::_parse` wires them.  It meets the contract `LexCanon` (Lemmas/LexCanon.lean), so the theorems
+above hold for it without hypothesis. -/
+
+/-- The reference tokenizer meets the contract, in both modes. -/
+theorem C01_lexCanon_document : LexCanon false lexDocument := fun ts h => lexDocument_render_erase ts h
+theorem C01_lexCanon_fragment : LexCanon true lexFragment := fun ts h => lexFragment_render_erase ts h
+
+/-- **C01_roundtrip** (`parse(to_string(doc))`): for every representable document whose default
+    serialisation succeeds, parsing the serialised STRING succeeds and the reparsed document reads
+    back, through the tables the parse leaves, as exactly the abstract document the original reads
+    back as. -/
+theorem C01_roundtrip (env : Env) (t : Tree) (hr : Representable env t = true) (s : Str)
+    (hs : toXmlString env t [] = .ok s) :
+    ∃ p, parseString .document env s = .ok p ∧ p.tree.value = .document ∧
+      decodeNs p.env p.tree.kids = decodeNs env t.kids := by
+  obtain ⟨ts, p, h1, h2, h3, h4⟩ := C01_main env t hr lexDocument C01_lexCanon_document s hs
+  refine ⟨p, ?_, h3, h4⟩
+  simp only [parseString, lexMode, h1]
+  exact h2
+
+/-- **C01_roundtrip_identical**: the reparsed tree IS the original tree — node kinds and order, name
+    ids (expanded names), attribute sets and values, character data, comments, PIs, namespace
+    declarations on the same elements with the same prefix-to-URI bindings — the interning tables are
+    unchanged, and `deep_equal` answers `true`. -/
+theorem C01_roundtrip_identical (env : Env) (t : Tree) (hr : Representable env t = true) (s : Str)
+    (hs : toXmlString env t [] = .ok s) :
+    ∃ p, parseString .document env s = .ok p ∧ p.tree = t ∧ p.env = env ∧ deepEqual p.tree t = true := by
+  obtain ⟨ts, p, h1, h2, h3, h4⟩ := C01_main_identical env t hr lexDocument C01_lexCanon_document s hs
+  obtain ⟨ts', p', k1, k2, k3⟩ := C01_main_deep_equal env t hr lexDocument C01_lexCanon_document s hs
+  rw [h1] at k1
+  cases k1
+  rw [h2] at k2
+  cases k2
+  refine ⟨p, ?_, h3, h4, k3⟩
+  simp only [parseString, lexMode, h1]
+  exact h2
+
+/-- `parse_fragment(to_string(doc))`. -/
+theorem C01_roundtrip_fragment (env : Env) (t : Tree) (hr : RepresentableFragment env t = true) (s : Str)
+    (hs : toXmlString env t [] = .ok s) :
+    ∃ p, parseString .fragment env s = .ok p ∧ p.tree.value = .document ∧
+      decodeNs p.env p.tree.kids = decodeNs env t.kids := by
+  obtain ⟨ts, p, h1, h2, h3, h4⟩ := C01_main_fragment env t hr lexFragment C01_lexCanon_fragment s hs
+  refine ⟨p, ?_, h3, h4⟩
+  simp only [parseString, lexMode, h1]
+  exact h2
+
+theorem C01_roundtrip_fragment_identical (env : Env) (t : Tree) (hr : RepresentableFragment env t = true)
+    (s : Str) (hs : toXmlString env t [] = .ok s) :
+    ∃ p, parseString .fragment env s = .ok p ∧ p.tree = t ∧ p.env = env ∧ deepEqual p.tree t = true := by
+  obtain ⟨ts, p, h1, h2, h3, h4⟩ :=
+    C01_main_fragment_identical env t hr lexFragment C01_lexCanon_fragment s hs
+  obtain ⟨ts', p', k1, k2, k3⟩ := C01_main_fragment_deep_equal env t hr lexFragment C01_lexCanon_fragment s hs
+  rw [h1] at k1
+  cases k1
+  rw [h2] at k2
+  cases k2
+  refine ⟨p, ?_, h3, h4, k3⟩
+  simp only [parseString, lexMode, h1]
+  exact h2
+
+/-- The property as one statement on the tree: a representable document every namespaced name of which
+    has a usable prefix in scope serialises, and the text parses back to the same tree. -/
+theorem C01_roundtrip_writable (env : Env) (t : Tree) (hr : Representable env t = true)
+    (hw : namesWritable env t [] = some true) :
+    ∃ s p, toXmlString env t [] = .ok s ∧ parseString .document env s = .ok p ∧ p.tree = t ∧ p.env = env ∧
+      deepEqual p.tree t = true := by
+  have hfrag : RepresentableFragment env t = true := by
+    simp only [Representable, Bool.and_eq_true] at hr; exact hr.1
+  obtain ⟨s, hs⟩ := (C01_serialises env t hfrag).mpr hw
+  obtain ⟨p, h1, h2, h3, h4⟩ := C01_roundtrip_identical env t hr s hs
+  exact ⟨s, p, hs, h1, h2, h3, h4⟩
+
+/-- Non-vacuity, closed: the document `c01Doc` meets the hypotheses by `decide`, so its serialisation
+    `c01Text` parses back to it. -/
+example : ∃ p, parseString .document c01Env c01Text = .ok p ∧ p.tree = c01Doc ∧ p.env = c01Env ∧
+    deepEqual p.tree c01Doc = true :=
+  C01_roundtrip_identical c01Env c01Doc (by decide) c01Text (by decide)
 
 end XotModel.Props
